@@ -33,6 +33,7 @@ class Opts:
         self.callblocks = True
         self.filterblocks = True
         self.setblocks = True
+        self.setblockfilters = True
         self.namespaces = True
         self.loopcontrols = True
         self.recursive = True
@@ -207,7 +208,12 @@ class SGen:
             return self.call_stmt(st)
         if k < 0.93 and self.o.setblocks:
             self.feat.add("setblock")
-            return [["setblock", self.pv(), self.block(self.sub(st, flow=False, loop=st["loop"]), r.randint(1, 2))]]
+            sb = ["setblock", self.pv(), self.block(self.sub(st, flow=False, loop=st["loop"]), r.randint(1, 2))]
+            if self.o.setblockfilters and r.random() < 0.35:
+                # {% set x | f %}: filters that return text for text (list|join returns a PLAIN str)
+                self.feat.add("setblock_filter")
+                sb.append(self.pick([["trim"], ["string"], ["lower"], ["list", "join"], ["trim", "list", "join"]]))
+            return [sb]
         if k < 0.95 and self.o.filterblocks:
             self.feat.add("filterblock")
             return [["filterblock", "upper", [], self.block(self.sub(st, flow=False), r.randint(1, 2))]]
@@ -390,7 +396,7 @@ def rename_body(body, mp):
         elif k == "setns":
             out.append(["setns", g(s[1]), s[2], R(s[3])])
         elif k == "setblock":
-            out.append(["setblock", g(s[1]), B(s[2])])
+            out.append(["setblock", g(s[1]), B(s[2])] + list(s[3:]))
         elif k == "with":
             out.append(["with", [[g(n), R(v)] for n, v in s[1]], B(s[2])])
         elif k == "macro":
